@@ -300,6 +300,40 @@ def decide(prop, tier, repo, seed, only_units=None, quiet=False):
             transformations += [dict(t, unit=name) for t in main.transformations]
             trusted += ["[%s] %s" % (name, t) for t in trusted_scan(main.text)]
             ev["assumptions"] += ["[%s] %s" % (name, a) for a in u.get("assumptions", [])]
+        # ---- thorough tier: the bounded stand-ins run unconditionally (they exercise the real code natively over a stated domain)
+        if tier == "thorough":
+            import native
+            for u in mine:
+                fb = u.get("fallback")
+                if not fb or prop not in fb.get("properties", u["properties"]) or any(b["unit"] == u["name"] for b in bounded_runs):
+                    continue
+                try:
+                    rc, out = native.run_native([(fb["module_file"], os.path.join(VERIF, "units", u["name"], fb["test"]))], fb["filter"], repo=repo)
+                except Exception as e:
+                    rc, out = None, str(e)
+                bounded_runs.append({"unit": u["name"], "bound": fb["bound"], "ran": rc is not None, "passed": rc == 0, "label": "bounded stand-in, not proof (thorough tier: run in addition to the proof)"})
+                if rc is not None and rc != 0 and "panicked" in out:
+                    msg = [l for l in out.split("\n") if "VX-FALLBACK" in l or "panicked" in l][:4]
+                    fallback_violations.append((u["name"], fb, msg, out))
+        # ---- concrete-history corpus (lib/corpus.py): on a failed obligation (to look for a concrete failing history on the real
+        #      code) and always in the thorough tier.  Tests, not proof.
+        corpus_info = None
+        corpus_violations = []
+        if (violations or tier == "thorough") and os.path.exists(os.path.join(repo, "Cargo.toml")):
+            import corpus
+            try:
+                ran, failing, cout = corpus.run(prop, repo)
+                known_ids = set(k.get("id") for k in known.get("findings", []) if k["property"] == prop)
+                corpus_info = {"label": "regression histories on the real crate (cargo test); testing, not proof", "ran": ran,
+                               "failing": failing, "when": "thorough tier" if tier == "thorough" else "after a failed obligation"}
+                for fl in failing:
+                    if fl["id"] in known_ids:
+                        k = [k for k in known["findings"] if k.get("id") == fl["id"]][0]
+                        known_hits.append((k, k["unit"], k["obligation"]))
+                    else:
+                        corpus_violations.append((fl, cout))
+            except Exception as e:
+                corpus_info = {"error": str(e)[:800]}
         # ---- verdict
         seen_known = set()
         for (k, name, f) in known_hits:
@@ -330,11 +364,24 @@ def decide(prop, tier, repo, seed, only_units=None, quiet=False):
                 out_lines.append("bounded stand-in failed for unit %s: %s" % (name, " | ".join(msg)[:500]))
                 out_lines.append("VIOLATION property=%s replay=%s" % (prop, path))
                 ev["violations"] = ev.get("violations", 0) + 1
+        for (fl, cout) in corpus_violations:
+            status = 1
+            os.makedirs(os.path.join(VERIF, "replays"), exist_ok=True)
+            h = hashlib.sha256(fl["test"].encode()).hexdigest()[:10]
+            path = os.path.join(VERIF, "replays", "%s-corpus-%s-%s.json" % (prop, fl["id"], h))
+            ent = [e for e in __import__("corpus").entries(prop) if e["id"] == fl["id"]]
+            json.dump({"property": prop, "failed_obligation": "concrete history %s (%s) fails on the real crate" % (fl["id"], fl["test"]),
+                       "failing_input": fl, "test_file": ent[0]["test_file"] if ent else None,
+                       "native_output_tail": cout[-3000:],
+                       "how_to_replay": ("cd /verif && python3 lib/native.py %s %s %s" % (ent[0]["module_file"], ent[0]["test_file"], ent[0]["filter"])) if ent else ""},
+                      open(path, "w"), indent=1)
+            out_lines.append("concrete failing history on the real code: %s — %s" % (fl["test"], fl["message"][:300]))
+            out_lines.append("VIOLATION property=%s replay=%s" % (prop, path))
         if status != 1 and undecided:
             status = 2
         n_obl = len([o for o in obligations if not o.get("known_finding")])
         n_dis = len([o for o in obligations if o["discharged"] and not o.get("known_finding")])
-        ev["violations"] = len(violations) + len(fallback_violations)
+        ev["violations"] = len(violations) + len(fallback_violations) + len(corpus_violations)
         ev["wall_s"] = round(time.time() - t0, 2)
         samples = [o for o in obligations[:3]]
         cov = {
@@ -345,6 +392,7 @@ def decide(prop, tier, repo, seed, only_units=None, quiet=False):
             "obligation_list": obligations,
             "known_finding_obligations": [o["name"] for o in obligations if o.get("known_finding")],
             "bounded": bounded_runs,
+            "concrete_history_corpus": corpus_info,
             "functions_under_contract": fn_under_contract,
             "transformations": transformations,
             "vacuity": {"canaries_that_failed_as_required": len(vac), "rule": "each contracted function is duplicated with `ensures false`; the duplicate must NOT verify"},
